@@ -105,6 +105,14 @@ pub fn build_stable_w<Ty: EdgeType, Ix: petgraph::graph::IndexType, W: Copy>(a: 
 }
 pub fn build_stable<Ty: EdgeType, Ix: petgraph::graph::IndexType>(a: &AbsGraph, r: &mut Rng) -> StableGraph<u32, i64, Ty, Ix> { build_stable_w(a, r, |w| w) }
 
+/// a Graph whose node i has index i and whose edges have the indices of their position in `a.edges` (nothing shuffled)
+pub fn plain_graph<Ty: EdgeType>(a: &AbsGraph) -> Graph<u32, i64, Ty, u32> {
+    let mut g = Graph::default();
+    for i in 0..a.n { g.add_node(i as u32); }
+    for &(s, t, w) in &a.edges { g.add_edge(petgraph::graph::NodeIndex::new(s), petgraph::graph::NodeIndex::new(t), w); }
+    g
+}
+
 pub fn build_graphmap_w<Ty: EdgeType, W: Copy>(a: &AbsGraph, r: &mut Rng, cw: fn(i64) -> W) -> GraphMap<u32, W, Ty, RandomState> {
     // node value = 3*id + 1, inserted in a shuffled order; a removed-and-reinserted node scrambles positions
     let mut g = GraphMap::default();
